@@ -259,3 +259,65 @@ def check_ref_pr(cfg, sizes, rnd):
     y = _ref_inverse(t, p.lowpass, list(p.highpasses))
     err = float(np.abs(y[:H, :W] - x).max())
     return err < 1e-9 * rtc.AMP['scale'] and y.shape == (H + H % 2, W + W % 2), 'reference PR %s/%s J=%d %dx%d err %.3g' % (biort, qshift, J, H, W, err)
+
+
+@register('dtcwt_slices')
+def check_dtcwt_slices(cfg, sizes, rnd):
+    """DTCWTForward / DTCWTInverse (also with the lowpass or a band-pass level omitted) on an (N, C) batch: slice (n, c) of every
+    output equals the transform of slice (n, c) alone; superposition; T(0) = 0"""
+    from pytorch_wavelets import DTCWTForward, DTCWTInverse
+    biort, qshift = cfg.get('biort', 'near_sym_a'), cfg.get('qshift', 'qshift_a')
+    J = _sz(sizes, 'J', 2, 1, 4)
+    N, C = _sz(sizes, 'B', 2, 1, 3), _sz(sizes, 'C', 2, 1, 4)
+    H, W = _sz(sizes, 'H', 16, 2, 40), _sz(sizes, 'W', 24, 2, 40)
+    H, W = -(-H // 2 ** J) * 2 ** J, -(-W // 2 ** J) * 2 ** J           # no crop levels: absent levels are well defined
+    rs = rtc.RState(rnd.randint(0, 10**6))
+    xf = _build64(DTCWTForward, biort=biort, qshift=qshift, J=J)
+    inv = _build64(DTCWTInverse, biort=biort, qshift=qshift)
+    x, y = torch.tensor(rs.randn(N, C, H, W)), torch.tensor(rs.randn(N, C, H, W))
+    sc = rtc.AMP['scale']
+    tol = 1e-10 * sc
+
+    def flat(o):
+        return [o[0]] + list(o[1])
+
+    def close(a, b):
+        return float((a - b).abs().max()) <= tol * (1 + 0)
+    full = flat(xf(x))
+    for n in range(N):
+        for c in range(C):
+            one = flat(xf(x[n:n + 1, c:c + 1]))
+            for a, b in zip(full, one):
+                if not close(a[n:n + 1, c:c + 1], b):
+                    return False, 'DTCWTForward J=%d N=%d C=%d: slice (%d,%d) of the batched result differs from the transform of that slice alone' % (J, N, C, n, c)
+    a_, b_ = 0.7, -1.3
+    for p, q, r in zip(flat(xf(a_ * x + b_ * y)), full, flat(xf(y))):
+        if not close(p, a_ * q + b_ * r):
+            return False, 'DTCWTForward J=%d: superposition fails' % J
+    if any(float(t.abs().max()) != 0 for t in flat(xf(torch.zeros_like(x)))):
+        return False, 'DTCWTForward: T(0) != 0'
+    yl, yh = xf(x)
+    pyr_l = torch.tensor(rs.randn(*yl.shape))
+    pyr_h = [torch.tensor(rs.randn(*h.shape)) for h in yh]
+    for variant in ('full', 'low-none', 'level-none'):
+        def args(sl=None):
+            lo = pyr_l if sl is None else pyr_l[sl[0]:sl[0] + 1, sl[1]:sl[1] + 1]
+            hs = [h if sl is None else h[sl[0]:sl[0] + 1, sl[1]:sl[1] + 1] for h in pyr_h]
+            if variant == 'low-none':
+                lo = None
+            if variant == 'level-none':
+                hs = [None] + hs[1:]
+            return (lo, hs)
+        if variant == 'low-none' and J < 1:
+            continue
+        try:
+            out = inv(args())
+        except Exception as e:
+            return False, 'DTCWTInverse[%s] raises %s: %s' % (variant, type(e).__name__, str(e)[:80])
+        for n in range(N):
+            for c in range(C):
+                one = inv(args((n, c)))
+                if not close(out[n:n + 1, c:c + 1], one):
+                    return False, 'DTCWTInverse[%s] J=%d N=%d C=%d: slice (%d,%d) of the batched result differs from the inverse of that slice alone (err %.3g)' % (
+                        variant, J, N, C, n, c, float((out[n:n + 1, c:c + 1] - one).abs().max()))
+    return True, 'DTCWT slices ok J=%d N=%d C=%d %dx%d' % (J, N, C, H, W)
